@@ -46,10 +46,11 @@ Fixpoint pair_up (symbols : list str) (refs : list N) : list label :=
   end.
 
 (* None = error (some reference is outside the table); the check runs first, so
-   the lookups below only ever see references inside the table *)
+   the lookups below only ever see references inside the table. That the source
+   still checks this way is the theorem C26_source_checks_refs (the model is not
+   switched off when the shape changes, so the correspondence keeps localising). *)
 Definition v2_labels (symbols : list str) (refs : list N) : option (list label) :=
-  if negb refs_checked then None
-  else if forallb (in_range symbols) refs then Some (pair_up symbols refs) else None.
+  if forallb (in_range symbols) refs then Some (pair_up symbols refs) else None.
 
 Fixpoint tr_exemplars (symbols : list str) (es : list v2exemplar) : option (list v1exemplar) :=
   match es with
